@@ -10,6 +10,10 @@ claimed = {}
 def claim(id, technique, text, note, level=MC, ref=None):
     claimed[id] = dict(level=level, technique=technique, text=text, note=note, ref=ref or f"DESIGN.md §3 {id}")
 
+def more(id, text):
+    """appends a sentence block to an existing claim (parts added in later rounds)"""
+    claimed[id]["text"] += " " + text
+
 exec(open(os.path.join(HERE, "manifest_claims.py")).read())
 
 def hook_commits():
